@@ -138,6 +138,11 @@ func (p *Program) VerifyFunc(c *Contract) (res *FuncResult) {
 		vtypes["self"] = fn.Params[0].Type()
 	}
 	for _, g := range c.Ghosts {
+		if g[1] == "mathint" {
+			// a ghost ranging over the mathematical integers
+			vars[g[0]] = Scalar{ex.declInput("gh_"+g[0], IntSort)}
+			continue
+		}
 		gt := basicTypeByName(g[1])
 		if gt == nil {
 			res.Rejected = "ghost " + g[0] + ": unsupported type " + g[1]
